@@ -128,89 +128,7 @@ theorem slistMoveFront_present (h : SHeap) (head n : Nat) (pre post : List Nat)
       simp [SHeap.set, this]
   exact (slistAdd_ring _ n head (pre ++ post) r' hnn).1
 
-/-! ### dlist_move_sorted -/
-
-/-- the position found by the `dlist_for_each_entry … break` loop: the first
-entry for which the comparator answers true, the head when there is none -/
-theorem sortedPos_spec (h : Heap) (cmp : Nat → Nat → Bool) (added head : Nat) :
-    ∀ (rest : List Nat) (p fuel : Nat), Seg h.next p rest head → head ∉ p :: rest → rest.length + 1 < fuel →
-      sortedPos h cmp added head fuel p = ((p :: rest).find? (cmp added)).getD head := by
-  intro rest
-  induction rest with
-  | nil =>
-    intro p fuel hs hh hf
-    simp only [Seg] at hs
-    have hph : p ≠ head := fun e => hh (by simp [e])
-    match fuel, hf with
-    | f + 2, _ =>
-      by_cases hc : cmp added p = true
-      · simp [sortedPos, hph, hc]
-      · simp [sortedPos, hph, hc, hs]
-  | cons x xs ih =>
-    intro p fuel hs hh hf
-    simp only [Seg] at hs
-    have hph : p ≠ head := fun e => hh (by simp [e])
-    match fuel, hf with
-    | f + 1, hf =>
-      by_cases hc : cmp added p = true
-      · simp [sortedPos, hph, hc]
-      · have := ih x f hs.2 (fun hm => hh (by simp at hm ⊢; right; exact hm)) (by simp at hf ⊢; omega)
-        simp only [sortedPos, hph, hc, if_false, hs.1, this]
-        simp [List.find?, hc]
-
-theorem find_split (q : Nat → Bool) (xs : List Nat) :
-    (xs.find? q = none ∧ xs.takeWhile (fun y => !q y) = xs ∧ xs.dropWhile (fun y => !q y) = []) ∨
-    (∃ x post, xs.find? q = some x ∧ q x = true ∧ xs.dropWhile (fun y => !q y) = x :: post ∧
-       xs = xs.takeWhile (fun y => !q y) ++ x :: post) := by
-  induction xs with
-  | nil => left; simp
-  | cons a as ih =>
-    by_cases ha : q a = true
-    · right; exact ⟨a, as, by simp [List.find?, ha], ha, by simp [List.dropWhile, ha], by simp [List.takeWhile, ha]⟩
-    · rcases ih with ⟨h1, h2, h3⟩ | ⟨x, post, h1, h2, h3, h4⟩
-      · left; simp [List.find?, ha, h1, List.takeWhile, List.dropWhile, h2, h3]
-      · right
-        refine ⟨x, post, by simp [List.find?, ha, h1], h2, by simp [List.dropWhile, ha, h3], ?_⟩
-        simp only [List.takeWhile, ha, Bool.not_false, List.cons_append]
-        rw [← h4]
-
-/-- `dlist_move_sorted(added, head, member, comparator)` with a lone `added`:
-the entry is inserted in front of the first entry for which the comparator holds
-(at the end when there is none); every other entry keeps its place. -/
-theorem moveSorted_ok {h : Heap} {cmp : Nat → Nat → Bool} {added head : Nat} {xs : List Nat} {B : Rings}
-    (ok : RingsOK h ([added] :: (head :: xs) :: B)) (fuel : Nat) (hf : xs.length + 1 < fuel) :
-    RingsOK (dlistMoveSorted h cmp fuel added head)
-      ((head :: (xs.takeWhile (fun y => !cmp added y) ++ added :: xs.dropWhile (fun y => !cmp added y))) :: B) := by
-  obtain ⟨_, _, ok1⟩ := ok.head
-  obtain ⟨⟨a', xs', e, r⟩, _, _⟩ := ok1.head
-  injection e with e1 e2; subst e1; subst e2
-  have hh : head ∉ xs := (List.nodup_cons.mp r.nodup).1
-  unfold dlistMoveSorted
-  cases xs with
-  | nil =>
-    have hn : h.next head = head := r.fwd
-    have : sortedPos h cmp added head fuel (h.next head) = head := by
-      match fuel, hf with
-      | f + 1, _ => simp [sortedPos, hn]
-    rw [this]
-    simpa using ok.addPrev
-  | cons x0 xs0 =>
-    have hfw := r.fwd; simp only [Seg] at hfw
-    rw [hfw.1, sortedPos_spec h cmp added head xs0 x0 fuel hfw.2 hh (by simp at hf; omega)]
-    rcases find_split (cmp added) (x0 :: xs0) with ⟨h1, h2, h3⟩ | ⟨x, post, h1, _, h3, h4⟩
-    · rw [h1, h2, h3]
-      simpa using ok.addPrev
-    · rw [h1, h3]
-      generalize (x0 :: xs0).takeWhile (fun y => !cmp added y) = pre at h4 ⊢
-      rw [h4] at ok
-      -- read the ring from x, insert before x, read it from head again
-      have ok2 : RingsOK h ((x :: (post ++ head :: pre)) :: [added] :: B) := by
-        have := swap12 ok
-        have := RingsOK.rotN (l1 := head :: pre) (b := x) (l2 := post) (by simpa using this)
-        simpa using this
-      have ok3 := (swap12 ok2).addPrev
-      have := RingsOK.rotN (l1 := x :: post) (b := head) (l2 := pre ++ [added]) (by simpa using ok3)
-      simpa using this
+/-! ### dlist_move_sorted (`sortedPos_spec`, `find_split`, `moveSorted_ok` are in Refine.lean: the operation is part of `AStep`) -/
 
 /-- hence a list kept sorted by a key stays sorted: with the comparator
 `key added < key pos` the new entry lands after every entry with a key `≤` its own
